@@ -31,9 +31,17 @@ namespace InfernoVerif.Lifecycle
 /-- no layer step of the history raised (a `MultiStateMonitor` whose `cell.monitors.<name>` does
 not resolve makes `layer(...)` raise `AttributeError`: D18, or a user deleting a monitor another
 monitor of the same registration reads) -/
+def stepOk (s : State) : Op → Bool
+  | .layerStep l => decide ((step s (.layerStep l)).2 = .ok)
+  | _ => true
+
 def NoAbort (s : State) : List Op → Prop
   | [] => True
-  | op :: ops => (∀ l, op = .layerStep l → (step s op).2 = .ok) ∧ NoAbort (step s op).1 ops
+  | op :: ops => stepOk s op = true ∧ NoAbort (step s op).1 ops
+
+theorem stepOk_spec {s : State} {op : Op} (h : stepOk s op = true) (l : Nat) (hop : op = .layerStep l) :
+    (step s op).2 = .ok := by
+  subst hop; simpa [stepOk] using h
 
 theorem exec_cons (s : State) (op : Op) (ops : List Op) : exec s (op :: ops) = exec (step s op).1 ops := rfl
 
@@ -57,7 +65,7 @@ theorem countOK_exec (ops : List Op) (s : State) (w : WF s) (h : CountOK s) (hn 
   | nil => exact h
   | cons op ops ih =>
     rw [exec_cons]
-    exact ih _ (step_wf w op) (countOK_step w h op hn.1) hn.2
+    exact ih _ (step_wf w op) (countOK_step w h op (stepOk_spec hn.1)) hn.2
 
 /-- **one_obs_per_training_step**: after ANY finite history in which no layer step raised, for
 every live trainer `T`, every cell name `n` it has registered and every monitor `m` listed for
